@@ -375,6 +375,12 @@ def check_termination(ctx, F, scope, loops_table, rec_table, rule="R-TERM"):
                         how = "TABLED: " + r["reason"]
                 else:
                     ok, how = False, "unknown witness"
+                if ok and r.get("init"):
+                    iok, ihow = check_counter_init(F, r["init"])
+                    if not iok:
+                        ok, how = False, ihow
+                    else:
+                        how += "; " + ihow
                 if ok:
                     r["_used"] = r.get("_used", 0) + 1
                     stats["verified" if w != "tabled" else "tabled"] += 1
@@ -437,3 +443,22 @@ def resolves_references(F, comp):
                 if cn in RESOLVERS:
                     return cn
     return None
+
+
+def check_counter_init(F, spec):
+    """every struct literal of `adt` initialises `field` with a term matching `matches` (the budget of a counter witness
+    must itself be bounded by the size of the in-memory document)."""
+    import lib
+    rx = re.compile(spec["matches"])
+    n = 0
+    for b in F.bodies.values():
+        for bi, s, fields in lib.struct_literals(b, spec["adt"]):
+            if spec["field"] not in fields:
+                continue
+            n += 1
+            t = b.oname(fields[spec["field"]], 5)
+            if not rx.search(t):
+                return False, "%s.%s is initialised with `%s` in %s, not with a value bounded by the document size" % (spec["adt"], spec["field"], t, F.canon_of(b))
+    if n < spec.get("min", 1):
+        return False, "found %d initialisation(s) of %s.%s, expected at least %d" % (n, spec["adt"], spec["field"], spec.get("min", 1))
+    return True, "%d initialisation(s) of %s.%s match /%s/" % (n, spec["adt"], spec["field"], spec["matches"])
